@@ -23,9 +23,9 @@ the number it spells (ownership only matters to the allocator ledger, which is t
 `SizeT` is 32 bit; all sizes here are `Nat` (no wrap-around).  The theorems therefore assume sizes
 below `2^32` (`2^30` for the ×4 stream policy) — the harness stays far below.
 
-The model describes the *repaired* behaviour at three places where the current code is defective
-(see notes/design-seq.md): `Array::operator+=(const Array&)` on itself, `operator<<(StringStream&,
-const StringStream&)` on itself across a reallocation, `String::StepBack(0)` on a null string.
+Three self-aliasing / null cases were defects until 5f6da32 (`Array::operator+=(const Array&)` on
+itself), c1884a5 (`operator<<(StringStream&, const StringStream&)` on itself across a reallocation) and
+6bc11c7 (`String::StepBack(0)` on a null string); the model describes the code after those commits.
 -/
 namespace Qentem.Seq
 
@@ -55,7 +55,7 @@ def push (a : ArrayM α) (x : α) : ArrayM α :=
   ⟨a'.data ++ [x], a'.cap⟩
 
 /-- `operator+=(const Array &src)` / `Insert(const Array&)` (131-150, 174), `src` = the items of the
-source read *before* the size is updated (repaired behaviour when `src` is `*this`). -/
+source (its size is read once, before the destination changes — also when `src` is `*this`). -/
 def appendCopy (a : ArrayM α) (src : List α) : ArrayM α :=
   let n := a.size + src.length
   let a' := if n > a.cap then a.resizeTo n else a
@@ -269,7 +269,7 @@ def write (s : StringM) (u : List Nat) : StringM :=
 def merge (a b : List Nat) : StringM :=
   if a.length + b.length ≠ 0 then ⟨some (a ++ b ++ [0]), a.length + b.length⟩ else empty
 
-/-- `StepBack(len)` (270-278); on a null string nothing is written (repaired behaviour). -/
+/-- `StepBack(len)` (270-279); on a null string nothing is written. -/
 def stepBack (s : StringM) (n : Nat) : StringM :=
   if n ≤ s.len then
     match s.store with
@@ -454,8 +454,8 @@ def expect (s : StreamM) (n : Nat) : StreamM :=
   if s.cap < m then s.expand P m else s
 
 /-- `operator+=(const StringStream&)` (119-124): `Expect`, then `write` of the source read after
-the `Expect` — `u` is the source's content (for `s += s` its own). The repaired
-`operator<<(StringStream&, const StringStream&)` is the same function. -/
+the `Expect` — `u` is the source's content (for `s += s` its own).
+`operator<<(StringStream&, const StringStream&)` (151-154) calls it. -/
 def appendStream (s : StreamM) (u : List Nat) : StreamM := (s.expect P u.length).write P u
 
 def stepBack (s : StreamM) (n : Nat) : StreamM :=                        -- 232-236
